@@ -60,7 +60,7 @@ for p in props:
     checks.append({
         "property_id": pid,
         "quick_cmd": f"bin/qv {low} --tier quick",
-        "thorough_cmd": f"bin/qv {low} --tier thorough" + (" && bin/fuzz 3000000" if pid == "C10" else ""),
+        "thorough_cmd": f"bin/qv {low} --tier thorough" + (" && bin/fuzz 3000000 c10" if pid == "C10" else " && bin/fuzz 200000 c03" if pid == "C03" else ""),
         "evidence_file": f"/verif/evidence/{pid}.json",
         "replay_cmd_template": f"bin/qv {low} --replay {{path}}",
         "engine": eng,
